@@ -1261,11 +1261,27 @@ class UGrid(DimensionConvention[UGridKind, UGridIndex]):
                 new_edge_indexes, new_node_indexes,
                 primary_dimension=topology.edge_dimension, fill_value=new_fill_value))
 
+        # Which rows to keep along each of the mesh dimensions
+        dimension_masks: dict[Hashable, numpy.ndarray] = {
+            topology.node_dimension: ~numpy.ma.getmask(new_node_indexes),
+            topology.face_dimension: ~numpy.ma.getmask(new_face_indexes),
+        }
+        if has_edges:
+            dimension_masks[topology.edge_dimension] = ~numpy.ma.getmask(new_edge_indexes)
+        mesh_dimensions = set(dimension_masks.keys())
+
+        # Coordinate variables defined on the mesh dimensions,
+        # such as node or face coordinates that xarray treats as coordinates,
+        # are sliced the same way as data variables.
+        coords = dataset.coords.to_dataset().isel(
+            {dim: numpy.flatnonzero(mask) for dim, mask in dimension_masks.items()},
+            missing_dims='ignore').coords
+
         # Save all the topology variables to one combined dataset
         topology_path = work_path / (str(topology.mesh_variable.name) + ".nc")
         topology_dataset = xarray.Dataset(
             data_vars={variable.name: variable for variable in topology_variables},
-            coords=dataset.coords,
+            coords=coords,
         )
         topology_dataset.to_netcdf(topology_path)
         mfdataset_paths.append(topology_path)
@@ -1275,13 +1291,6 @@ class UGrid(DimensionConvention[UGridKind, UGridIndex]):
         del topology_variables
 
         logger.debug("Slicing data variables...")
-        dimension_masks: dict[Hashable, numpy.ndarray] = {
-            topology.node_dimension: ~numpy.ma.getmask(new_node_indexes),
-            topology.face_dimension: ~numpy.ma.getmask(new_face_indexes),
-        }
-        if has_edges:
-            dimension_masks[topology.edge_dimension] = ~numpy.ma.getmask(new_edge_indexes)
-        mesh_dimensions = set(dimension_masks.keys())
 
         for name, data_array in dataset.data_vars.items():
             data_array_path = work_path / (str(name) + '.nc')
